@@ -2,25 +2,27 @@
 """reseed.py [ids...] : re-runs the target-property check (plus extra checks given as id:Cxx,Cyy) of every
 seeded change in /verif/seeded against /repo with the change applied; updates meta.json 'recheck'."""
 import json, os, subprocess, sys, time, glob
+R = os.environ.get('REPO_DIR', '/repo')
+V = os.environ.get('VERIF_DIR', '/verif')
 ids = sys.argv[1:] or sorted(os.path.basename(os.path.dirname(p)) for p in glob.glob('/verif/seeded/*/meta.json'))
-st = subprocess.run(['git', '-C', '/repo', 'status', '--porcelain', '--untracked-files=no'], capture_output=True, text=True).stdout.strip()
-assert st == '', '/repo not clean'
+st = subprocess.run(['git', '-C', R, 'status', '--porcelain', '--untracked-files=no'], capture_output=True, text=True).stdout.strip()
+assert st == '', R + ' not clean'
 bad = []
 for sid in ids:
     d = '/verif/seeded/' + sid
     meta = json.load(open(d + '/meta.json'))
     prop = meta['breaks_property']
     try:
-        r = subprocess.run(['git', '-C', '/repo', 'apply', d + '/patch.diff'], capture_output=True, text=True)
+        r = subprocess.run(['git', '-C', R, 'apply', d + '/patch.diff'], capture_output=True, text=True)
         assert r.returncode == 0, r.stderr
         t0 = time.time()
-        p = subprocess.run(['./check', prop, '--tier', 'quick'], cwd='/verif', capture_output=True, text=True)
+        p = subprocess.run(['./check', prop, '--tier', 'quick'], cwd=V, capture_output=True, text=True)
         lines = [l for l in p.stdout.splitlines() if l.startswith('VIOLATION') or l.startswith('MACHINERY') or l.startswith('  ')]
         meta['recheck'] = {'at': time.strftime('%Y-%m-%d %H:%M:%S'), 'check': prop, 'exit': p.returncode, 'wall_s': round(time.time() - t0, 1), 'first_lines': lines[:4]}
         print(sid, prop, 'exit', p.returncode, '%.1fs' % (time.time() - t0), (lines[1].strip()[:160] if len(lines) > 1 else ''))
         if p.returncode != 1:
             bad.append(sid)
     finally:
-        subprocess.run(['git', '-C', '/repo', 'checkout', '--', '.'])
+        subprocess.run(['git', '-C', R, 'checkout', '--', '.'])
     json.dump(meta, open(d + '/meta.json', 'w'), indent=1)
 print('NOT-CAUGHT:', bad)
